@@ -103,5 +103,27 @@ let handle toks =
       (match page_might_match (ptype_of ty) pgs (zi idx) (qbound qmin) (qbound qmax) with
        | SOk (st, m) -> Printf.sprintf "OK %s %d" (zs st) (if m then 1 else 0)
        | SErr c -> "ERR " ^ zs c | SFault f -> "FAULT " ^ fault_name f)
+  | ["pmw"; ty; _tlen; maxdef; pages; idx; qmin; qmax] ->
+      let t = ptype_of ty in
+      let texts = ref [] in
+      let pgs = List.fold_left (fun acc pg ->
+          let nonnull = ref 0 in
+          let w = List.fold_left (fun w bt ->
+              match String.split_on_char '/' bt with
+              | [vals; defs; nv] ->
+                  let vs = List.map bytes_of (split '.' vals) in
+                  nonnull := !nonnull + List.length vs;
+                  let ds = if defs = "-" then None
+                           else Some (List.init (String.length defs) (fun i -> z_of_int (Char.code defs.[i] - 48))) in
+                  pw_add_values w vs (zi nv) ds
+              | _ -> failwith "bad batch") (pw_create t (zi maxdef)) (split ',' pg) in
+          let (mn, mx) = match pw_statistics w with
+            | Some ps -> (ps.ps_min_value, ps.ps_max_value) | None -> (None, None) in
+          texts := (Printf.sprintf "0:0:%s:%s" (zs w.pw_num_nulls)
+                      (match mn, mx with Some a, Some b -> hex_or_e a ^ ":" ^ hex_or_e b | _ -> "-:-")) :: !texts;
+          add_page acc w.pw_num_nulls mn mx (!nonnull = 0)) [] (split ';' pages) in
+      (match page_might_match t pgs (zi idx) (qbound qmin) (qbound qmax) with
+       | SOk (st, m) -> Printf.sprintf "OK pages=%s m=%s:%d" (if !texts = [] then "-" else String.concat ";" (List.rev !texts)) (zs st) (if m then 1 else 0)
+       | SErr c -> "ERR " ^ zs c | SFault f -> "FAULT " ^ fault_name f)
   | _ -> "RUNNER-ERROR unknown-op"
 let () = main_loop handle
